@@ -5,7 +5,13 @@
    E <value>       EncodeToBytes of the value at the current type      -> e <hex>
    D <hex>         DecodeBytes into the current type                   -> d ok <value> | d err <class>
    S/SS/SL/SU <hex> Split / SplitString / SplitList / SplitUint64      -> s ... | s err <class>
-   C <hex>         CountValues                                         -> c <n> | c err <class> *)
+   C <hex>         CountValues                                         -> c <n> | c err <class>
+   IT <hex>        NewListIterator + Next/Value/Err                    -> it <k> <hex>.. [err <class>] | it err <class>
+   AU <n>          AppendUint64 / IntSize                              -> a <hex> <intsize>
+   LS <n>          ListSize                                            -> ls <n>
+   EB <item>       the item written through the EncoderBuffer API      -> e <hex>
+   MS <limit> <hex>  NewStream(reader, limit) + Decode in a loop (current type) -> m <value> | .. | end <class>
+   SC <T|Ln> <hex> <op>..  Stream operations by hand                   -> sc <result> | .. *)
 open Conv
 
 let byte_tab : byte array = Array.init 256 (fun i -> nb (n_of_int i))
@@ -85,7 +91,8 @@ let str_err = function
   | ECanonInt -> "canonint" | ECanonSize -> "canonsize" | EElemTooLarge -> "elemlarge"
   | EValueTooLarge -> "vallarge" | EMoreThanOne -> "morethanone" | EUintOverflow -> "toolong"
   | ENotAtEOL -> "toomany" | ETooFew -> "toofew" | EStrTooLong -> "toolong" | EStrTooShort -> "tooshort"
-  | EBool -> "bool" | EWrongEmpty -> "wrongempty" | EFuel -> "fuel"
+  | EBool -> "bool" | EWrongEmpty -> "wrongempty" | ENotInList -> "notinlist" | EWrongSize -> "wrongsize"
+  | EFuel -> "fuel"
 
 let str_rerr = function
   | RUnexpectedEOF -> "ueof" | RCanonSize -> "canonsize" | RValueTooLarge -> "vallarge"
@@ -153,6 +160,42 @@ let () =
          (match count_values (bytes_of_hex h) with
           | ROk n -> Printf.printf "c %s\n" (string_of_n n)
           | RErr e -> Printf.printf "c err %s\n" (str_rerr e))
+       | ["IT"; h] ->
+         (match list_iterator (bytes_of_hex h) with
+          | RErr e -> Printf.printf "it err %s\n" (str_rerr e)
+          | ROk (vs, e) ->
+            Printf.printf "it %d %s%s\n" (List.length vs) (String.concat " " (List.map hex_of_bytes vs))
+              (match e with None -> "" | Some e -> " err " ^ str_rerr e))
+       | ["AU"; n] ->
+         let n = n_of_string n in
+         Printf.printf "a %s %s\n" (hex_of_bytes (append_uint64 n)) (string_of_n (int_size n))
+       | ["LS"; n] -> Printf.printf "ls %s\n" (string_of_n (list_size (n_of_string n)))
+       | "EB" :: r -> let (x, _) = parse_item r in Printf.printf "e %s\n" (hex_of_bytes (encode x))
+       | ["MS"; limit; h] ->
+         let bs = bytes_of_hex h in
+         let k = int_of_string limit in
+         let bs = if k = 0 then bs else List.filteri (fun i _ -> i < k) bs in
+         let (vs, e) = stream_decode_all !cur bs in
+         let (ws, _) = decode_all !cur bs in
+         Printf.printf "m %s%s\n" (String.concat " | " (List.map str_val vs @ ["end " ^ str_err e]))
+           (if ws = vs then "" else " WINDOW-DECODER-DIFFERS")
+       | "SC" :: mode :: h :: ops ->
+         let bs = bytes_of_hex h in
+         let s0 = if mode = "T" then new_stream bs
+           else new_list_stream bs (n_of_string (String.sub mode 1 (String.length mode - 1))) in
+         let op_of = function
+           | "K" -> OKind | "L" -> OList | "E" -> OListEnd | "B" -> OBytes | "O" -> OBool | "R" -> ORaw | "I" -> OBig
+           | u when String.length u > 1 && u.[0] = 'U' -> OUint (n_of_string (String.sub u 1 (String.length u - 1)))
+           | rb when String.length rb > 2 && String.sub rb 0 2 = "RB" -> OReadBytes (n_of_string (String.sub rb 2 (String.length rb - 2)))
+           | x -> failwith ("bad stream op " ^ x) in
+         let str_out = function
+           | RKind (k, size) -> Printf.sprintf "k %s %s" (str_kind k) (string_of_n size)
+           | RNum n -> "u " ^ string_of_n n
+           | RBytes b -> "x " ^ hex_of_bytes b
+           | RBool b -> if b then "t" else "f"
+           | RUnit -> "ok"
+           | RErrOut e -> "err " ^ str_err e in
+         Printf.printf "sc %s\n" (String.concat " | " (List.map str_out (s_script (List.map op_of ops) s0)))
        | l -> failwith ("bad line: " ^ String.concat " " l));
       loop ()
   in
